@@ -120,7 +120,7 @@ def work_c17(prop, tier, seed, widx, nworkers):
         for _try in range(20):
             # families with a known hang (KF-REC2) only cost wall-clock watchdog time on a real loop;
             # they are judged on the virtual loop, where a hang is decided exactly
-            if not set(base.get('tags', [])) & {'rec_two_scopes', 'rec_outside_consumer'}:
+            if not set(base.get('tags', [])) & {'rec_two_scopes_static', 'rec_outside_consumer'}:
                 break
             base = simplify_for_real(gen.gen_program(rng, real_profile()))
         variants = [assign_modes(base, rng, how) for how in ('async', 'thread', 'inline', 'process', 'random', 'random', 'thread_tag', 'custom_tag')]
